@@ -199,6 +199,7 @@ type sweeper struct {
 	fails    int
 	cases    int
 	skipped  int
+	drains   int
 }
 
 func (sw *sweeper) fail(e *env, what string, hist []string, op, res string) {
@@ -345,6 +346,24 @@ func sweepMain(w *bufio.Writer, maxsegs, shard, nshards, heavysegs, extrasegs in
 						break
 					}
 				}
+			}
+		}
+		if built && fresh() {
+			// drain: remove everything inside the child root through the child, the last node by a plain Remove;
+			// the emptied root itself and the directories above it belong to the outside and must stay
+			var hist []string
+			for _, l := range []string{
+				fmt.Sprintf("removeall %d %s", st.child, hp("in")),
+				fmt.Sprintf("remove %d %s", st.child, hp("a")),
+				fmt.Sprintf("readdir %d %s", st.child, hp("")),
+				fmt.Sprintf("write %d %s %s", st.child, hp("again"), hd("w")),
+				fmt.Sprintf("remove %d %s", st.child, hp("again")),
+				fmt.Sprintf("isdir %d %s", st.child, hp("")),
+			} {
+				sw.cases++
+				sw.drains++
+				sw.call(e, hist, l)
+				hist = append(hist, l)
 			}
 		}
 		if e != nil {
